@@ -160,3 +160,107 @@ lemma('node-ids-distinct-within-window', props=('C16',),
            ('ids-pairwise-distinct-in-window', _distinct),
            ('clients-have-disjoint-id-ranges', _clients_disjoint)],
       note='induction over the alloc contract: k-th counter = init + (t0-init+k) mod W')
+
+
+# ---- ContiguousBlockAllocator._find_next: the nearest block above an address ----------------------
+# (the function repaired by the `fix:` commit "_find_next"; the allocator's coalescing on free
+#  relies on it).  The block table is an uninterpreted array slot -> entry, an entry being either
+#  None or a block with ghost start/size.
+from vf.pyvc.spec import Loop
+from vf.pyvc import values as VV
+
+SLOT = z3.Function('cba_slot', z3.IntSort(), VV.Any)            # table entry at relative slot
+B_START = z3.Function('cba_block_start', VV.Any, z3.IntSort())
+B_SIZE = z3.Function('cba_block_size', VV.Any, z3.IntSort())
+
+
+def is_free_slot(k):
+    return VV.tag_of(SLOT(k)) == TAGS['none']
+
+
+def cba_getitem(eng, obj, idx, st, node):
+    if obj.k == 'obj' and obj.oid == 'self._array' and idx.k == 'int':
+        return [(st, V('any', SLOT(idx.z)))]
+    return None
+
+
+def cba_getattr(eng, obj, name, st, node):
+    if obj.k == 'any' and name in ('start', 'size'):
+        return [(st, vint((B_START if name == 'start' else B_SIZE)(obj.z)))]
+    return None
+
+
+def fn_inv(c, L):
+    s = c.pre.self
+    k = z3.Int('k')
+    # every slot strictly between addr and i is empty
+    return z3.And(L.i >= c.addr + 1,
+                  z3.ForAll([k], z3.Implies(z3.And(k > c.addr, k < L.i),
+                                            z3.And(k <= s.top, is_free_slot(k - s.addr_offset)))))
+
+
+def fn_post(c):
+    s = c.pre.self
+    r = c.resultv
+    off, top, size = s.addr_offset, s.top, s.size
+    here = SLOT(c.addr - off)
+    k = z3.Int('k')
+    i = c.st.env['i'].z                       # where the search ended
+    at_block = VV.tag_of(here) != TAGS['none']
+    after_block = i == B_START(here) + B_SIZE(here)
+    # the least index above addr that is beyond top or holds an entry
+    scanned = z3.And(i > c.addr,
+                     z3.ForAll([k], z3.Implies(z3.And(k > c.addr, k < i), z3.And(k <= top, is_free_slot(k - off)))),
+                     z3.Or(i > top, z3.Not(is_free_slot(i - off))))
+    where = z3.If(at_block, after_block, scanned)
+    if r.k == 'none':
+        return z3.And(where, i - off >= size)                     # beyond the table: no next block
+    if r.k != 'any':
+        return z3.BoolVal(False)
+    return z3.And(where, i - off < size, r.z == SLOT(i - off))    # the entry right there
+
+
+contract(F, 'ContiguousBlockAllocator._find_next', props=('C16',),
+         params={'self': 'self', 'addr': 'int'},
+         ensures=[('entry-after-the-block-at-addr,or-first-non-empty-slot-above-addr-up-to-top', fn_post)],
+         loops={0: Loop(inv=fn_inv, variant=lambda c, L: c.pre.self.top - L.i + 1, kinds={'i': 'int'})},
+         modifies=[],
+         fields={'ContiguousBlockAllocator': {'_array': 'obj', 'addr_offset': 'int', 'top': 'int', 'size': 'int',
+                                              'pos': 'int'}},
+         hooks={'getitem': cba_getitem, 'getattr': cba_getattr},
+         class_modules={'ContiguousBlockAllocator': F}, native=False,
+         note='table entries are an uninterpreted array (no bounds: index errors of a malformed table are the '
+              'bounded driver\'s); quantified loop invariant "all slots between addr and i are empty"')
+
+
+# ---- _find_previous: the nearest entry below an address, down to the partition start ---------------
+def fp_inv(c, L):
+    s = c.pre.self
+    k = z3.Int('k')
+    # the slots already visited (addr-1 down to addr-i) are all empty
+    return z3.ForAll([k], z3.Implies(z3.And(k < c.addr, k >= c.addr - L.i, k >= s.pos),
+                                     is_free_slot(k - s.addr_offset)))
+
+
+def fp_post(c):
+    s = c.pre.self
+    r = c.resultv
+    k, j = z3.Int('k'), z3.Int('j_found')
+    if r.k == 'none':
+        return z3.ForAll([k], z3.Implies(z3.And(k >= s.pos, k < c.addr), is_free_slot(k - s.addr_offset)))
+    if r.k != 'any':
+        return z3.BoolVal(False)
+    j = c.st.env['i'].z                 # the address it was found at
+    return z3.And(j >= s.pos, j < c.addr, r.z == SLOT(j - s.addr_offset), z3.Not(is_free_slot(j - s.addr_offset)),
+                  z3.ForAll([k], z3.Implies(z3.And(k > j, k < c.addr), is_free_slot(k - s.addr_offset))))
+
+
+contract(F, 'ContiguousBlockAllocator._find_previous', props=('C16',),
+         params={'self': 'self', 'addr': 'int'},
+         ensures=[('nearest-non-empty-slot-below-addr-inside-the-partition,or-None-when-all-are-empty', fp_post)],
+         loops={0: Loop(inv=fp_inv, kinds={'i': 'int'})},
+         modifies=[],
+         fields={'ContiguousBlockAllocator': {'_array': 'obj', 'addr_offset': 'int', 'top': 'int', 'size': 'int',
+                                              'pos': 'int'}},
+         hooks={'getitem': cba_getitem, 'getattr': cba_getattr},
+         class_modules={'ContiguousBlockAllocator': F}, native=False)
